@@ -51,7 +51,10 @@ RULE = ("per enumeration (1..200 members; names that are prefixes of each other,
         "string (a baseline enumeration and redefinitions: members reordered / replaced / added / removed / "
         "another size) used in one process on freshly created classes: 3-10 interleaved round-trip steps (names "
         "in declaration and sorted order, random names, a name that only the other enumeration has, indices, own "
-        "members), in both orders and grouped by enumeration; every step is compared with its own enumeration")
+        "members, members of ANOTHER enumeration of the group: all of them / one among own ones first, last, "
+        "in the middle / its last one / those that coincide; the other enumeration being larger, permuted, "
+        "identical or an extension), in both orders and grouped by enumeration; every step is compared with its "
+        "own enumeration")
 TRUSTED = ["numpy 1.26 (asarray, isin, argsort, searchsorted, fancy indexing, unicode comparison) and Python's "
            "enum machinery are modelled by EnumModel.v (lists, insertion sort, binary search), covered by the "
            "correspondence only"]
@@ -59,9 +62,9 @@ ASSUMPTIONS = ["enumerations have at most 256 members (index dtype uint8; the ca
                "Python bool counts as int (True encodes as index 1)",
                "the identity of an enumeration is what EnumType.__eq__ compares (identity of the class-name string): "
                "every generated enumeration class has its own name string",
-               "two classes whose __name__ is the same string object compare equal (EnumType.__eq__): in the same-name "
-               "groups only an enumeration's OWN members are given to its encode (a member of the other class of that "
-               "name passes the class check of Enum.encode in /repo: reported to the integrator, not exercised)",
+               "two classes whose __name__ is the same string object compare equal (EnumType.__eq__): the model gives "
+               "them one identity; a member of the other class of that name is accepted by Enum.encode exactly when "
+               "this enumeration has a member of the same name at the same index (it is then that member)",
                "member names are printable ASCII, non-empty, without leading underscore; inputs are one-dimensional",
                "an alias (second name for an existing member's value) is not a member name: Enum.encode rejects it like "
                "any unknown name, E[alias] is the canonical member; the model's enumeration is the list of canonical names"]
@@ -188,7 +191,7 @@ def obs_members(classes, arr):
     out = []
     for m in arr:
         k = [i for i, cls in enumerate(classes) if type(m) is cls]
-        out.append([k[0] if k else -1, int(m.index)])
+        out.append([k[0] if k else -1, int(m.index), str(m.name)])
     return out
 
 
@@ -235,15 +238,35 @@ def same_name_classes(enums):
     return out
 
 
+def renumber(x, f):
+    """The input x with the enumeration number k of every member element replaced by f(k)."""
+    if "elems" not in x:
+        return x
+    x = dict(x)
+    x["elems"] = [[el[0], f(el[1])] + list(el[2:]) if el[0] in ("m", "ma") else el for el in x["elems"]]
+    return x
+
+
+def step_order(c, st):
+    """The enumerations of the group as a step sees them: its own first (number 0), then the others."""
+    e = st["e"]
+    return [e] + [k for k in range(len(c["enums"])) if k != e]
+
+
 def step_case(c, st):
-    """A step of a multi case seen as a round case of its own enumeration (which is then number 0)."""
-    return {"op": "round", "enums": [c["enums"][st["e"]]], "input": st["input"]}
+    """A step of a multi case seen as a round case of its own enumeration (which is then number 0, the
+    other enumerations of the group following); member elements name their enumeration by its number in
+    the group and are renumbered accordingly."""
+    order = step_order(c, st)
+    return {"op": "round", "enums": [c["enums"][k] for k in order], "same_name": True,
+            "input": renumber(st["input"], order.index)}
 
 
 def run_impl(c):
     if c["op"] == "multi":
         group = same_name_classes(c["enums"])
-        return [guarded(run_round, [group[st["e"]]], st["input"]) for st in c["steps"]]
+        return [guarded(run_round, [group[k] for k in step_order(c, st)], step_case(c, st)["input"])
+                for st in c["steps"]]
     classes = classes_of(c)
     E = classes[0]
     op = c["op"]
@@ -277,7 +300,17 @@ def cenum(k, names):
     return f"(mkEnum {k} {clist([cstr(s) for s in names])})"
 
 
-def celem(el):
+def eid(c, k):
+    """The model's identity of enumeration k of the case: what EnumType.__eq__ compares, i.e. the
+    class-name string; the enumerations of a same-name group all have the same one."""
+    return 0 if c.get("same_name") else k
+
+
+def cmem(c, k, i):
+    return f"(mkMem {cz(eid(c, k))} {int(i)}%nat {cstr(c['enums'][k][i])})"
+
+
+def celem(c, el):
     t = el[0]
     if t == "i":
         return f"(EInt {cz(el[1])})"
@@ -286,14 +319,14 @@ def celem(el):
     if t == "s":
         return f"(EStr {cstr(el[1])})"
     if t == "m":
-        return f"(EMem ({cz(el[1])}, {cz(el[2])}))"
+        return f"(EMem {cmem(c, el[1], el[2])})"
     if t == "ma":             # the member the alias stands for
-        return f"(EMem ({cz(el[1])}, {cz(el[3])}))"
+        return f"(EMem {cmem(c, el[1], el[3])})"
     return "EOther"
 
 
 def carr(c, pv, values):
-    e = "None" if pv is None else f"(Some {cenum(pv, c['enums'][pv])})"
+    e = "None" if pv is None else f"(Some {cenum(eid(c, pv), c['enums'][pv])})"
     return f"(mkArr {e} {clist([cz(v) for v in values])})"
 
 
@@ -306,11 +339,11 @@ def cinput(c, x):
     if k == "arr_str":
         return f"(ArrStr {clist([cstr(s) for s in x['values']])})"
     if k == "arr_obj":
-        return f"(ArrObj {clist([celem(e) for e in x['elems']])})"
+        return f"(ArrObj {clist([celem(c, e) for e in x['elems']])})"
     if k == "arr_other":
         return f"(ArrOther {int(x['len'])}%nat)"
     if k == "seq":
-        return f"(Seq {clist([celem(e) for e in seq_elems(x)])})"
+        return f"(Seq {clist([celem(c, e) for e in seq_elems(x)])})"
     raise ValueError(k)
 
 
@@ -320,7 +353,7 @@ def coq_case(c):
         steps = []
         for st in c["steps"]:
             sc = step_case(c, st)
-            steps.append(f"({cenum(0, sc['enums'][0])}, {cinput(sc, sc['input'])})")
+            steps.append(f"({cenum(eid(sc, 0), sc['enums'][0])}, {cinput(sc, sc['input'])})")
         return f"(KMulti {clist(steps)})"
     e = cenum(0, c["enums"][0])
     if op == "encode":
@@ -334,7 +367,7 @@ def coq_case(c):
     if op == "str_to_index":
         return f"(KStrToIndex {e} {clist([cstr(s) for s in c['values']])})"
     if op == "enum_to_index":
-        return f"(KEnumToIndex {clist(['(%s, %s)' % (cz(k), cz(i)) for k, i in c['members']])})"
+        return f"(KEnumToIndex {clist([cmem(c, k, i) for k, i in c['members']])})"
     if op == "argsort":
         return f"(KArgsort {e})"
     if op == "search":
@@ -345,16 +378,27 @@ def coq_case(c):
 # ---- oracle: the statement of C15 evaluated on the implementation's answer -------------------------
 
 def element_view(c):
-    """Naive reading of an encode input: (items, odd) where every item is
+    """Naive reading of an encode input: (items, odd, lenient) where every item is
     ('int'|'name'|'member', index) for something that designates a member of enumeration 0,
     or ('bad', reason); odd = a container/dtype on which the statement makes no promise of
-    acceptance (numpy bool array, object array of ints or names)."""
+    acceptance (numpy bool array, object array of ints or names); lenient = the input holds a member
+    of ANOTHER enumeration of the same class name whose name is also a member name here: it may be
+    refused, but if it is accepted the result must designate the member of that name."""
     x = c["input"]
     names = c["enums"][0]
     n = len(names)
     k = x["k"]
     odd = False
+    lenient = [False]
     items = []
+
+    def of_member(kk, i):
+        if kk == 0:
+            return ("member", i)
+        if c.get("same_name") and c["enums"][kk][i] in names:
+            lenient[0] = True
+            return ("member", names.index(c["enums"][kk][i]))
+        return ("bad", "member of another enumeration" + (" of the same class name" if c.get("same_name") else ""))
 
     def of_int(v):
         return ("int", v) if 0 <= v < n else ("bad", f"index {v} outside 0..{n - 1}")
@@ -386,12 +430,12 @@ def element_view(c):
                 items.append(of_name(el[1]))
                 odd = odd or k == "arr_obj"
             elif t == "m":
-                items.append(("member", el[2]) if el[1] == 0 else ("bad", "member of another enumeration"))
+                items.append(of_member(el[1], el[2]))
             elif t == "ma":       # an alias is the same member
-                items.append(("member", el[3]) if el[1] == 0 else ("bad", "member of another enumeration"))
+                items.append(of_member(el[1], el[3]))
             else:
                 items.append(("bad", f"unsupported element type {el[1]}"))
-    return items, odd
+    return items, odd, lenient[0]
 
 
 def check_encoded(c, o, tag):
@@ -405,7 +449,7 @@ def check_encoded(c, o, tag):
             return f"{tag}-invalid-index: encoded array {enc[:20]} holds {i}, not an index of the {n} members"
     if isinstance(dec, Err) or isinstance(strs, Err):
         return f"{tag}-decode-raised: decoding {enc[:20]} raised {dec if isinstance(dec, Err) else strs}"
-    if dec != [[0, i] for i in enc]:
+    if dec != [[0, i, names[i]] for i in enc]:
         return f"{tag}-decode: {enc[:20]} decoded to {dec[:20]}"
     if strs != [names[i] for i in enc]:
         return f"{tag}-decode-to-str: {enc[:20]} decoded to {strs[:20]}"
@@ -440,7 +484,7 @@ def oracle(c, o):
             if op == "round" and x["pv"] == 0 and all(0 <= i < n for i in enc):
                 return check_encoded(c, o, "encoded")
             return None
-        items, odd = element_view(c)
+        items, odd, lenient = element_view(c)
         bad = [it for it in items if it[0] == "bad"]
         if bad:
             if not isinstance(o, Err):
@@ -449,7 +493,7 @@ def oracle(c, o):
         kinds = {it[0] for it in items}
         claimed = not odd and len(kinds) <= 1
         if isinstance(o, Err):
-            if claimed:
+            if claimed and not lenient:
                 return f"valid-rejected: {x['k']} of {len(items)} valid {'/'.join(kinds) or 'no'} element(s) raised {o.kind}"
             return None
         enc = o if op == "encode" else o[0]
@@ -472,7 +516,7 @@ def oracle(c, o):
             if not (isinstance(dec, Err) and isinstance(strs, Err)):
                 return f"decode-invalid: an EnumArray holding {vals[:20]} over {m} members decoded to {dec}"
         elif all(0 <= v < m for v in vals):
-            if dec != [[c["pv"], v] for v in vals] or strs != [c["enums"][c["pv"]][v] for v in vals]:
+            if dec != [[c["pv"], v, c["enums"][c["pv"]][v]] for v in vals] or strs != [c["enums"][c["pv"]][v] for v in vals]:
                 return f"decode: {vals[:20]} decoded to {dec} / {strs}"
         return None
     if op == "int_to_index":
@@ -844,7 +888,7 @@ def variant(rng, names):
     """Another enumeration a reform could declare under the same name: the same members in another
     order, one member replaced / added / removed, another size, or something else altogether."""
     n = len(names)
-    how = rng.choice(["reorder", "reverse", "replace", "add", "remove", "swap2", "other", "resize"])
+    how = rng.choice(["reorder", "reverse", "replace", "add", "remove", "swap2", "other", "resize", "same", "append"])
     have = set(names)
 
     def fresh():
@@ -855,6 +899,10 @@ def variant(rng, names):
                 return w
 
     v = list(names)
+    if how == "same":                 # a second class declaring exactly the same members
+        return v
+    if how == "append":               # the same members and some more after them
+        return v + [fresh() for _ in range(rng.choice([1, 2, 5]))]
     if how == "reorder":
         rng.shuffle(v)
     elif how == "reverse":
@@ -912,10 +960,25 @@ def multi_cases(rng, count):
                         if rng.random() < 0.5 else {"k": "seq", "container": "list", "elems": [["i", i] for i in picks]})
             if kind == "int_bad":
                 return {"k": "arr_int", "dtype": "int64", "values": place(rng, picks, [m, m + 1, -1], "middle")}
-            elems = [["m", 0, i] for i in picks]        # the step's own members
+            elems = [["m", k, i] for i in picks]        # the step's own members
+            if kind == "mem_foreign":                   # members of ANOTHER enumeration of the same class name
+                j = rng.choice([q for q in range(len(enums)) if q != k])
+                mj = len(enums[j])
+                style = rng.choice(["all", "one", "one", "some", "last", "common"])
+                if style == "all":
+                    elems = [["m", j, i] for i in range(mj)]
+                elif style == "some":
+                    elems = [["m", j, rng.randrange(mj)] for _ in range(rng.randrange(1, 6))]
+                elif style == "last":                   # its last member alone (beyond our range when it is larger)
+                    elems = [["m", j, mj - 1]]
+                elif style == "common":                 # those that have the same name at the same index here
+                    same = [i for i in range(min(m, mj)) if enums[j][i] == names[i]]
+                    elems = [["m", j, i] for i in same] or [["m", j, 0]]
+                else:
+                    elems = place(rng, elems, [["m", j, rng.randrange(mj)]], rng.choice(["first", "last", "middle"]))
             return {"k": "arr_obj", "elems": elems} if rng.random() < 0.5 else {"k": "seq", "container": "list", "elems": elems}
 
-        kinds = ["all", "sorted", "str", "str", "str", "str_bad", "int", "int_bad", "mem"]
+        kinds = ["all", "sorted", "str", "str", "str", "str_bad", "int", "int_bad", "mem", "mem_foreign", "mem_foreign"]
         nsteps = rng.randrange(3, 9)
         pattern = rng.choice(["ab", "ba", "aab", "abab", "random"])
         order = [rng.randrange(len(enums)) for _ in range(nsteps)] if pattern == "random" else \
@@ -932,7 +995,8 @@ def multi_cases(rng, count):
         # the same steps with the enumerations taking turns in the opposite order
         perm = list(range(len(enums)))[::-1]
         cases.append({"op": "multi", "enums": [enums[p] for p in perm],
-                      "steps": [{"e": perm.index(st["e"]), "input": st["input"]} for st in steps][::-1]})
+                      "steps": [{"e": perm.index(st["e"]), "input": renumber(st["input"], perm.index)}
+                                for st in steps][::-1]})
         # and first everything of one enumeration, then everything of the next
         cases.append({"op": "multi", "enums": enums, "steps": sorted(steps, key=lambda st: st["e"])})
     return cases
